@@ -100,6 +100,44 @@ def identity_share(k):
     return f"(ㄱㅇㄱ ㅎ ㅎㄱ ㅎ ㅎㄱ) (ㄱㅇㄱ ㄱㅇㄱ ㄴㅎㄷ ㅎ) ㅎㄴ"
 
 
+@monitor('c13_loopshare')
+def _loopshare(case, a):
+    """a delayed expression whose evaluation is a long tail loop (thousands of hand-overs between the expression that was
+    demanded and the frame that finally produces the value), used once and used several times: the number of evaluations
+    started must be the same up to the few extra argument references"""
+    from pbhhg_py import interpret as I
+    from .. import impl
+    once, many, n_ = case.data
+    def count(prog):
+        n = [0]
+        orig = I.interpret
+        def counting(value):
+            n[0] += 1
+            return orig(value)
+        I.interpret = counting
+        try:
+            r = impl.run_main(prog, case.stdin, case.fs, case.format_io, case.timeout)
+        finally:
+            I.interpret = orig
+        return r, n[0]
+    r1, n1 = count(once)
+    r3, n3 = count(many)
+    if r1['kind'] != r3['kind'] or r1['kind'] not in ('ok', 'err'):
+        return f"loop of {n_} rounds used once: {r1['kind']}, used several times: {r3['kind']}"
+    if n3 > n1 + 400:
+        return (f"loop of {n_} rounds as a shared delayed expression: {n1} evaluations started when it is used once, {n3} when it is "
+                f"used several times: the loop is run again")
+    return None
+
+
+def loop_share(n_, uses, fail=False):
+    end = "(ㄹ ㄷㅂㅎㄴ ㄷㅈㅎㄴ)" if fail else "ㄱ"
+    loop = f"{enc(n_)} ({end} ((ㄱㅇㄱ ㄴㄱ ㄷㅎㄷ) ㄱㅇ ㅎㄴ) (ㄱㅇㄱ ㄱ ㄴㅎㄷ) ㅎㄷ ㅎ) ㅎㄴ"
+    use = "(ㄱㅇㄱ (ㄱㅇㄱ ㅎ) ㅅㄷㅎㄷ)" if fail else "ㄱㅇㄱ"
+    elems = " ".join(use for _ in range(uses))
+    return f"({loop}) ({elems} ㅁㄹㅎ{enc(uses)} ㅎ) ㅎㄴ"
+
+
 SHARE_KINDS = {
     'int0': "ㄱ", 'int': "ㄷㅈ", 'float0': "(ㄱ ㅅㅅㅎㄴ)", 'true': "(ㅈㅈㅎㄱ)", 'false': "(ㄱㅈㅎㄱ)", 'nil': "(ㅂㄱㅎㄱ)",
     'str0': "(ㅁㅈㅎㄱ)", 'str': "(ㄷㅈ ㅁㅈㅎㄴ)", 'bytes0': "(" + gen.render(gen.bytes_lit(b"")) + ")", 'bytes': "(" + gen.render(gen.bytes_lit(b"ab")) + ")",
@@ -142,6 +180,13 @@ def cases(rng, tier):
         for k in ([1, 2, 4, 9] if tier == 'quick' else [1, 2, 3, 4, 6, 9, 14, 20, 40]):
             yield Case(program=share_kind(seed, k), mode='events', tag='share-' + kind, monitor='c13_once', data=('share-' + kind, k),
                        timeout=30, format_io=False)
+    # the shared expression is a long tail loop, succeeding or failing at its end (seeded change S13k recorded the outcome in
+    # a bounded number of the cells on the hand-over chain only, so a loop of more than ~2500 rounds was run again per use)
+    for n_ in ([40, 3000, 7000] if tier == 'quick' else [40, 1000, 2600, 3000, 7000, 20000]):
+        for fail in (False, True):
+            yield Case(program=loop_share(n_, 3, fail), tag='loop-share', monitor='c13_loopshare', data=(loop_share(n_, 1, fail), loop_share(n_, 3, fail), n_),
+                       timeout=120, skip_model=True, nontrivial=True)
+        yield Case(program=loop_share(n_, 3), variants=("ㄱ ㄱ ㄱ ㅁㄹㅎㄹ",), tag='loop-share-value', timeout=120, fuel=400 * n_ + 10 ** 6)
     # a failing shared expression fails once and is served from the cell afterwards
     for k in [1, 3, 7]:
         elems = " ".join("(ㄱㅇㄱ (ㄱㅇㄱ ㅎ) ㅅㄷㅎㄷ)" for _ in range(k))
